@@ -139,9 +139,12 @@ def tlc_env(xmx="3g", deque=False):
         opts += " -Dtlc2.tool.queue.IStateQueue=StateDeque"
     return dict(os.environ, JAVA_TOOL_OPTIONS=opts)
 
+import itertools
+_meta_seq = itertools.count()
+
 def run_tlc(module, cfg, workers=1, env_extra=None, timeout=1800, xmx="3g", extra_args=()):
     os.makedirs(WORK + "/tlc", exist_ok=True)
-    meta = "%s/tlc/m%d_%d" % (WORK, os.getpid(), int(time.time() * 1000) % 100000000)
+    meta = "%s/tlc/m%d_%d_%d" % (WORK, os.getpid(), int(time.time() * 1000) % 100000000, next(_meta_seq))
     env = tlc_env(xmx)
     if env_extra:
         env.update(env_extra)
@@ -346,6 +349,7 @@ def run_trace_engine(name, gen_fn, tier, seed, shards=6, cap=None, keep_traces=F
         shutil.rmtree(wdir, ignore_errors=True)
         os.makedirs(wdir)
         scns = gen_fn(seed, tier)
+        gen_info = gen_fn.info() if hasattr(gen_fn, "info") else None
         scn_path = os.path.join(wdir, "scenarios.ndjson")
         by_id = {}
         with open(scn_path, "w") as f:
@@ -424,7 +428,7 @@ def run_trace_engine(name, gen_fn, tier, seed, shards=6, cap=None, keep_traces=F
         r = {"engine": name, "tier": tier, "seed": seed, "repo_key": repo_key(), "stats": stats,
              "traces": traces, "viol": viol, "cov": cov, "samples": samples,
              "wall_s": round(time.time() - t0, 1), "exec_s": round(t_exec, 1),
-             "validate_s": round(t_val, 1), "cached": False}
+             "validate_s": round(t_val, 1), "cached": False, "gen_info": gen_info}
         json.dump(r, open(path, "w"))
         if not keep_traces:
             shutil.rmtree(wdir, ignore_errors=True)
